@@ -113,7 +113,21 @@ class OneShotFault(object):
         return model.run_op(name, args, impl)
 
 
+BACKEND = 'model'  # 'real': run_model() executes the scenario on the real file system instead (replay of counterexamples)
+
+
+class RealBackendNotApplicable(Exception):
+    pass
+
+
 def run_model(world, steps, hook=None, uid=UID, model=None, max_ops=None):
+    if BACKEND == 'real':
+        if hook is not None or model is not None or any(('hook' in st) for st in steps if isinstance(st, dict)):
+            raise RealBackendNotApplicable('the scenario needs a crash/fault/scheduling hook or a hand-built model state')
+        res = run_real(world, steps)
+        if res is None:
+            raise RealBackendNotApplicable('real file system backend unavailable here')
+        return None, res
     """-> (model, results); a step killed by Crash yields {'crashed': True} and ends the run"""
     m = model if model is not None else W.build_model(world, uid=uid)
     if max_ops is not None:
@@ -142,6 +156,21 @@ def run_model(world, steps, hook=None, uid=UID, model=None, max_ops=None):
             m.set_cwd(st['chdir'])
             results.append(None)
     return m, results
+
+
+def run_real(world, steps):
+    """the same scenario on the REAL file system (chroot + tmpfs mounts, real os/shutil); same result shapes as
+    run_model; returns None when the real backend is unavailable"""
+    from . import realfs
+    if not realfs.available():
+        return None
+    r = realfs.run_batch([{'world': world, 'steps': steps}])[0]
+    if r['error']:
+        raise RuntimeError(r['error'])
+    out = []
+    for st, x in zip(steps, r['steps']):
+        out.append(W.unjsonable(x) if 'snap' in st else x)
+    return out
 
 
 # ------------------------------------------------------------------ snapshots
